@@ -10,7 +10,7 @@ for d in /verif/seeded/C*/; do
   git -C /repo apply $d/patch.diff
   line="$id:"
   for p in $props; do
-    OUT=$(./bin/govc check --property $p 2>&1); rc=$?
+    OUT=$(GOVC_NOEVIDENCE=1 ./bin/govc check --property $p 2>&1); rc=$?
     n=$(echo "$OUT" | grep -c '^VIOLATION')
     first=$(echo "$OUT" | grep '^VIOLATION' | head -2 | sed 's/.*obligation=//' | tr '\n' ';')
     line="$line $p exit=$rc violations=$n $first"
